@@ -105,6 +105,9 @@ func genProf(rt *rapid.T) profCase {
 	if some("ehi") {
 		add("ehi", inHi-r64(rt, 0, 5000, "ehiOff")*nsMs, inLo, inHi)
 	}
+	if m, ok := w.middleDay(); ok {
+		add("mid", m+r64(rt, 0, 3600, "midOff")*nsSec, inLo, inHi)
+	}
 	if some("pfb") {
 		add("pfb", int64(dayOf(w.From)-1)*nsDay-nsMs-r64(rt, 0, 2*86400_000, "pfb")*nsMs, 1, w.From-nsMs)
 	}
@@ -341,6 +344,9 @@ func predProf(c profCase, o *evid.Obs) error {
 				return fmt.Errorf("%s misses %s, which has a profile inside the window\n%s", ctx, what, sqlDump(stmts))
 			}
 			o.Tag("found-inside")
+			if sid == "mid" {
+				o.Tag("middle-day-only:found")
+			}
 		case data && allOut, !data && farDates:
 			if shown[sid] {
 				return fmt.Errorf("%s returns %s, whose profiles all lie outside the window\n%s", ctx, what, sqlDump(stmts))
